@@ -90,7 +90,7 @@ class SlowParse(BaseException):
 
 
 class time_limit:
-    """Wall-clock limit for one parse (main thread of a worker process only)."""
+    """CPU-time limit for one parse (main thread of a worker process only)."""
 
     def __init__(self, seconds):
         self.seconds = seconds
@@ -98,16 +98,18 @@ class time_limit:
     def _fire(self, *a):
         raise SlowParse()
 
+    # CPU time of this process (not wall-clock: a worker that is merely descheduled or waits for
+    # the disk on a loaded machine must not be reported as a slow parse)
     def __enter__(self):
         if self.seconds:
-            self.old = signal.signal(signal.SIGALRM, self._fire)
+            self.old = signal.signal(signal.SIGPROF, self._fire)
             # (repeats: an alarm that lands inside a destructor is swallowed by the interpreter)
-            signal.setitimer(signal.ITIMER_REAL, self.seconds, 0.5)
+            signal.setitimer(signal.ITIMER_PROF, self.seconds, 0.5)
 
     def __exit__(self, *a):
         if self.seconds:
-            signal.setitimer(signal.ITIMER_REAL, 0)
-            signal.signal(signal.SIGALRM, self.old)
+            signal.setitimer(signal.ITIMER_PROF, 0)
+            signal.signal(signal.SIGPROF, self.old)
         return False
 
 
